@@ -16,8 +16,8 @@ import (
 	"context"
 	"encoding/json"
 	"fmt"
+	"sync"
 	"testing"
-
 	"time"
 
 	"github.com/go-kit/log"
@@ -31,9 +31,13 @@ import (
 	"k8s.io/apimachinery/pkg/types"
 	ctrl "sigs.k8s.io/controller-runtime"
 	"sigs.k8s.io/controller-runtime/pkg/client/fake"
+	"sigs.k8s.io/controller-runtime/pkg/event"
 )
 
 func vRecSpecJSON(c *frrv1beta1.FRRConfiguration) string {
+	if c == nil {
+		c = &frrv1beta1.FRRConfiguration{}
+	}
 	b, err := json.Marshal(c.Spec)
 	if err != nil {
 		panic(err)
@@ -304,5 +308,115 @@ func TestVerifK8sRec(t *testing.T) {
 			mgr("after closing a session", func() error { return sessions[i].Close() })
 		}
 		out.Stat("reconciled_shrink_to_empty", 1)
+	}
+}
+
+// ---------------------------------------------------------------------------
+// Delivery: the real session manager -> UpdateConfig -> the REAL debouncer of the
+// reconciler (unbuffered channels, short interval) -> a consumer that plays the
+// channel source and is NOT receiving when the timer fires (started late, or busy)
+// -> worker running the real Reconcile.  Property: the FRRConfiguration the
+// session manager produced last reaches the API (bounded wait).
+func TestVerifK8sRecDeliver(t *testing.T) {
+	out := vOpen()
+	defer out.Close()
+	r := vRand()
+	n := vN(12)
+	const ns = "frr-k8s-system"
+	node := "node-a"
+	for id := 1; id <= n; id++ {
+		ss := vGenSessions(r, false)
+		for i := range ss {
+			ss[i].SecretN, ss[i].SecretNS = "", ""
+		}
+		interval := time.Duration(3000+r.Intn(3000)) * time.Microsecond
+		startLate := id%3 != 0 // two thirds of the runs: nobody receives when the first timer fires
+		scheme := runtime.NewScheme()
+		if err := frrv1beta1.AddToScheme(scheme); err != nil {
+			t.Fatal(err)
+		}
+		cl := fake.NewClientBuilder().WithScheme(scheme).Build()
+		rec := &FRRK8sReconciler{Client: cl, Logger: log.NewNopLogger(), LogLevel: logging.LevelInfo, Scheme: scheme, NodeName: node,
+			FRRK8sNamespace: ns, configChangedChan: make(chan struct{}), reconcileChan: make(chan event.GenericEvent)}
+		debouncer(rec.configChangedChan, rec.reconcileChan, interval)
+		sm := frrk8s.NewSessionManager(log.NewNopLogger(), logging.LevelInfo, node, ns)
+		var pmu sync.Mutex
+		var produced *frrv1beta1.FRRConfiguration
+		sm.SetEventCallback(func(c interface{}) {
+			cfg := c.(frrv1beta1.FRRConfiguration)
+			pmu.Lock()
+			produced = cfg.DeepCopy()
+			pmu.Unlock()
+			rec.UpdateConfig(c)
+		})
+		key := types.NamespacedName{Name: frrk8s.ConfigName(node), Namespace: ns}
+		stop := make(chan struct{})
+		dirty := make(chan struct{}, 1)
+		go func() { // the channel source
+			if startLate {
+				time.Sleep(4 * interval)
+			}
+			for {
+				select {
+				case <-rec.reconcileChan:
+					select {
+					case dirty <- struct{}{}:
+					default:
+					}
+					if r := id % 2; r == 0 {
+						time.Sleep(2 * interval) // busy pushing the event
+					}
+				case <-stop:
+					return
+				}
+			}
+		}()
+		go func() { // the worker
+			for {
+				select {
+				case <-dirty:
+					_, _ = rec.Reconcile(context.TODO(), ctrl.Request{NamespacedName: key})
+				case <-stop:
+					return
+				}
+			}
+		}()
+		apiErr := false
+		for _, s := range ss {
+			se, err := sm.NewSession(log.NewNopLogger(), vParams(s))
+			if err != nil {
+				apiErr = true
+				break
+			}
+			if err := se.Set(vAdvertisements(s)...); err != nil {
+				apiErr = true
+				break
+			}
+		}
+		out.Stat("deliver_runs", 1)
+		if startLate {
+			out.Stat("deliver_consumer_started_late", 1)
+		}
+		if !apiErr {
+			pmu.Lock()
+			want := vRecSpecJSON(produced)
+			pmu.Unlock()
+			got := ""
+			deadline := time.Now().Add(3 * time.Second)
+			for time.Now().Before(deadline) {
+				cur := frrv1beta1.FRRConfiguration{}
+				_ = cl.Get(context.TODO(), key, &cur)
+				got = vRecSpecJSON(&cur)
+				if got == want {
+					break
+				}
+				time.Sleep(2 * time.Millisecond)
+			}
+			if got != want {
+				out.Fail("k8s-produced-not-delivered", fmt.Sprintf("run %d: 3 s after the last session update the FRRConfiguration in the API is not the one the session manager produced (consumer started late: %v)", id, startLate),
+					map[string]any{"sessions": ss, "in_api": json.RawMessage(got), "produced": json.RawMessage(want)})
+			}
+		}
+		close(stop)
 	}
 }
